@@ -33,7 +33,7 @@ from midgard.gnss import gnss
 
 
 @plugins.register
-def get_rinex2_or_rinex3(file_path: pathlib.PosixPath) -> "TODO":
+def get_rinex2_or_rinex3(file_path: pathlib.PosixPath, encoding: str = None, **parser_args) -> "Parser":
     """Use either Rinex2NavParser or Rinex3NavParser for reading orbit files in format 2.11 or 3.03.
 
     Firstly the RINEX file version is read. Based on the read version number it is decided, which Parser should be
@@ -41,6 +41,11 @@ def get_rinex2_or_rinex3(file_path: pathlib.PosixPath) -> "TODO":
 
     Args:
         file_path (pathlib.PosixPath):  File path to broadcast orbit file.
+        encoding:                       Encoding of the file.
+        parser_args:                    Input arguments to the parser.
+
+    Returns:
+        Parser for the RINEX version of the file, it is parsed by the caller (`parsers.parse_file`).
     """
     version = gnss.get_rinex_file_version(file_path=file_path)
     if version.startswith("2"):
@@ -50,4 +55,6 @@ def get_rinex2_or_rinex3(file_path: pathlib.PosixPath) -> "TODO":
     else:
         log.fatal(f"Unknown RINEX format {version} is used in file {file_path}")
 
-    return parsers.parse_file(parser_name=parser_name, file_path=file_path, use_cache=True)
+    return plugins.call(
+        package_name=parsers.__name__, plugin_name=parser_name, file_path=file_path, encoding=encoding, **parser_args
+    )
